@@ -545,10 +545,10 @@ def judge_sq4(run, cases, which):
         else:
             for g in range(ng):
                 if not common.close(real[g, 0], model[g, 0], 1e-7):
-                    why = f"shell {g} q: real {real[g, 0]!r} vs {which} {model[g, 0]!r}"
+                    why = f"shell {g} q: real {float(real[g, 0])!r} vs {which} {float(model[g, 0])!r}"
                     break
                 if not common.close(real[g, 1], model[g, 1], 2e-7):
-                    why = f"shell {g} Sq: real {real[g, 1]!r} vs {which} {model[g, 1]!r}"
+                    why = f"shell {g} Sq: real {float(real[g, 1])!r} vs {which} {float(model[g, 1])!r}"
                     break
         if why:
             dis.append((c, f"sq4:{classify(c)} lag {lag}: {why}", "sq4"))
